@@ -283,6 +283,26 @@ def n_cases(ctx, flow, curve=None):
     return range(1 if ctx.quick else (6 if curve == 'bl' else 20))
 
 
+def prompt_path(ctx):
+    """The third source of the passphrase (after the argument and the environment variable) is the prompt.  Where there is no terminal the prompt reads a line
+    from standard input; the passphrase is that line without its newline - leading and trailing blanks belong to it."""
+    import os, subprocess, sys
+    from pytezos.crypto.key import Key
+    child = ('import sys\nfrom pytezos.crypto.key import Key\nk = Key.from_encoded_key(sys.argv[1])\nprint("PKH", k.public_key_hash())\n')
+    for k, pw in enumerate((' leading blank', 'trailing blank ', 'plain', '\tboth  ')):
+        secret = cr.secret_from('ed', ('c08-prompt', ctx.seed, k))
+        key = kf.key_from_secret('ed', secret)
+        esk = key.secret_key(passphrase=pw)
+        env = {a: b for a, b in os.environ.items() if a != 'PYTEZOS_PASSPHRASE'}
+        r = subprocess.run([sys.executable, '-c', child, esk], input=pw + '\n', capture_output=True, text=True, env=env, timeout=120)
+        ctx.count(('prompt', k), nontrivial=True)
+        ctx.replayed += 1
+        want = 'PKH ' + cr.pkh_b58('ed', cr.public_key('ed', secret))
+        if want not in r.stdout:
+            ctx.mismatch('C08:import:prompt:%s' % ('blank-at-the-ends' if pw != pw.strip() else 'plain'), 'an Ed25519 key exported with the passphrase %r and imported without a passphrase argument in a process whose standard input (no terminal) carries that passphrase: %s' % (
+                pw, (r.stderr.strip().splitlines() or [r.stdout.strip() or 'no output'])[-1][:200]), {'scenario': ['prompt', k], 'k': k})
+
+
 def run(ctx):
     ctx.rule = ('Leg A: KeyFlow flows "export" (curve x export option x import passphrase) and "mnemonic" (8 lengths x known words x checksum x input form, '
                 'then curve x two (email, passphrase) pairs); Leg B: every completed scenario x K seeded cases (export: smallest and largest valid secret + 3 / 200 '
@@ -319,6 +339,7 @@ def run(ctx):
             ctx.replayed += 1
             ctx.count((sc, k), nontrivial=reached)
     ctx.exhaustive = True
+    prompt_path(ctx)
 
 
 def replay(ctx, rep):
@@ -329,7 +350,10 @@ def replay(ctx, rep):
     def tup(x):
         return tuple(tup(y) for y in x) if isinstance(x, list) else x
     sc = tup(c['scenario'])
-    if sc[1] == 'export':
+    if sc[0] == 'prompt':
+        prompt_path(ctx)
+        ok = not ctx.mismatches
+    elif sc[1] == 'export':
         ok = replay_export(ctx, sc, c['k'])
     elif sc[1] == 'mnemonic':
         ok = replay_mnemonic(ctx, sc, c['k'])
